@@ -215,6 +215,10 @@ def cflowOp (args : List String) : String :=
       | some "canceled" => some .canceled
       | some "deadline" => some .deadline
       | _ => none
+    if point.startsWith "close" then
+      -- CloseResponse drains the rest of the body; a clean end is success
+      (if e.isEOF then "close=0" else s!"close={(clientCloseResponseErrorDone none done e).codeOf}")
+    else
     let first : Option GoError :=
       match point.splitOn ":" with
       | ["do"] =>
